@@ -165,3 +165,33 @@ Proof.
   - replace (p + total_diff pre) with (p - 0 + total_diff pre) by lia. apply (all_before_norm pre 0); auto.
   - destruct post as [|[[s x] y] post]; simpl; auto. lia.
 Qed.
+
+(* ------------------------------------------------------------------ *)
+(* A map moves a position by at most what its ranges delete (downwards) or insert (upwards). *)
+Fixpoint sum_old (rs : list range) : Z := match rs with [] => 0 | (_, x, _) :: r => x + sum_old r end.
+Fixpoint sum_new (rs : list range) : Z := match rs with [] => 0 | (_, _, y) :: r => y + sum_new r end.
+
+Lemma map_go_shift rs : forall i d p a lo,
+  wf_ranges lo rs ->
+  p + d - sum_old rs <= mr_pos (map_go false rs i d p a) <= p + d + sum_new rs.
+Proof.
+  induction rs as [|[[s x] y] rs IH]; intros i d p a lo Hwf; simpl in *.
+  - lia.
+  - destruct Hwf as (H1 & H2 & H3 & H4).
+    assert (0 <= sum_old rs /\ 0 <= sum_new rs) as [Ho Hn].
+    { clear -H4. revert H4. generalize (s + x). induction rs as [|[[s' x'] y'] r IHr]; simpl; intros z Hz; [lia|].
+      destruct Hz as (? & ? & ? & Hz). specialize (IHr _ Hz). lia. }
+    replace (s - 0) with s by lia.
+    destruct (s >? p) eqn:E1; simpl; [lia|].
+    destruct (p <=? s + x) eqn:E2; simpl.
+    + destruct (_ <? 0); lia.
+    + specialize (IH (i + 1) (d + (y - x)) p a (s + x) H4). lia.
+Qed.
+
+Theorem map_shift_bound rs p a :
+  wf_ranges 0 rs ->
+  p - sum_old rs <= map {| ranges := rs; inverted := false |} p a <= p + sum_new rs.
+Proof.
+  intros H. unfold map, map_result; cbn [ranges inverted].
+  pose proof (map_go_shift rs 0 0 p a 0 H). lia.
+Qed.
